@@ -24,6 +24,17 @@ package sourcerunner
 // range holds the key - unchanged; broadcasts go to every operator; every record read puts one
 // placeholder on the output stream and one entry into the key-by fetcher, and a placeholder is
 // resolved by taking exactly one result from the fetcher and routing its keyed events in order.
+// The source runner routes with the SAME key space as the operators own state with: key-group
+// count first, then one range per operator (C05: routing agrees with ownership).
+//@ func newOperatorCluster
+//@   property C05 C04
+//@   nosafety
+//@   requires params != nil
+//@   atcall NewKeySpace: arg0 == params.keyGroupCount && arg1 == len(params.operators)
+//@   ensures result != nil && result.keyGroupCount == params.keyGroupCount && len(result.operators) == len(params.operators)
+//@   loop 0:
+//@     invariant len(operators) == len(params.operators)
+
 //@ func operatorCluster.routeEvent
 //@   property C04
 //@   requires c.keySpace != nil && partitioning.ghostValidKeySpace(c.keySpace) && len(c.keySpace.keyGroupRanges) == len(c.operators)
